@@ -7,26 +7,40 @@ use std::cell::Cell;
 use std::rc::Rc;
 use std::time::{Duration, Instant};
 
-fn one(id: &str, delay: Duration, repeat: bool, window: Duration) {
+#[derive(Clone, Copy, PartialEq)]
+enum Kind {
+  Timer,
+  Interval,
+  Delay,
+  DelaySubscription,
+}
+
+fn one(id: &str, delay: Duration, kind: Kind, window: Duration) {
   let mut pool = LocalPool::new();
   let sp = pool.spawner();
   let ran_at: Rc<Cell<Option<Duration>>> = Rc::new(Cell::new(None));
   let r = ran_at.clone();
   let t0 = Instant::now();
   let result = std::panic::catch_unwind(std::panic::AssertUnwindSafe(|| {
-    if repeat {
+    let mark = move || {
+      if r.get().is_none() {
+        r.set(Some(t0.elapsed()))
+      }
+    };
+    match kind {
       // interval: the first tick comes one period after the subscription
-      let _u = observable::interval(delay, sp.clone()).take(1).subscribe(move |_| {
-        if r.get().is_none() {
-          r.set(Some(t0.elapsed()))
-        }
-      });
-    } else {
-      let _u = observable::timer((), delay, sp.clone()).subscribe(move |_| {
-        if r.get().is_none() {
-          r.set(Some(t0.elapsed()))
-        }
-      });
+      Kind::Interval => {
+        let _u = observable::interval(delay, sp.clone()).take(1).subscribe(move |_| mark());
+      }
+      Kind::Timer => {
+        let _u = observable::timer((), delay, sp.clone()).subscribe(move |_| mark());
+      }
+      Kind::Delay => {
+        let _u = observable::of(()).delay(delay, sp.clone()).subscribe(move |_| mark());
+      }
+      Kind::DelaySubscription => {
+        let _u = observable::of(()).delay_subscription(delay, sp.clone()).subscribe(move |_| mark());
+      }
     }
     while t0.elapsed() < window && ran_at.get().is_none() {
       pool.run_until_stalled();
@@ -45,7 +59,7 @@ fn one(id: &str, delay: Duration, repeat: bool, window: Duration) {
 fn main() {
   std::panic::set_hook(Box::new(|_| {}));
   let w = Duration::from_millis(350);
-  for (kind, repeat) in [("timer", false), ("interval", true)] {
+  for (kind, repeat) in [("timer", Kind::Timer), ("interval", Kind::Interval), ("delay", Kind::Delay), ("delay_subscription", Kind::DelaySubscription)] {
     one(&format!("{kind}-0ms"), Duration::from_millis(0), repeat, w);
     one(&format!("{kind}-30ms"), Duration::from_millis(30), repeat, w);
     one(&format!("{kind}-1500us"), Duration::from_micros(1500), repeat, w);
@@ -56,5 +70,8 @@ fn main() {
     one(&format!("{kind}-2^32ms"), Duration::from_millis(1u64 << 32), repeat, w);
     one(&format!("{kind}-2^32s+1s"), Duration::from_secs((1u64 << 32) + 1), repeat, w);
     one(&format!("{kind}-2^64us+50ms"), Duration::from_micros(u64::MAX) + Duration::from_millis(51), repeat, w);
+    // beyond what an Instant can hold: "never"
+    one(&format!("{kind}-2^63s+1s"), Duration::from_secs(u64::MAX / 2 + 1), repeat, w);
+    one(&format!("{kind}-max"), Duration::MAX, repeat, w);
   }
 }
